@@ -229,6 +229,23 @@ func MsgValues(m *Message) []*MsgVal {
 	groups := map[string]int{}
 	for _, f := range m.Fields {
 		fvs := trim(m, FieldValues(f))
+		if f.PlainGroup != "" {
+			// at most one member of the proto oneof carries a value
+			var set []*FieldVal
+			for _, fv := range fvs {
+				if fv.Set {
+					set = append(set, fv)
+				}
+			}
+			key := "plain:" + f.PlainGroup
+			if gi, ok := groups[key]; ok {
+				dims[gi].opts = append(dims[gi].opts, set...)
+			} else {
+				groups[key] = len(dims)
+				dims = append(dims, dim{opts: append([]*FieldVal{{F: f}}, set...)})
+			}
+			continue
+		}
 		if f.Group != "" {
 			var set []*FieldVal
 			for _, fv := range fvs {
